@@ -222,3 +222,142 @@ Example C18_ex_feature :
   compute_feature_keypoints rnd_he false fcs feats None RMean =
   [(0%nat, FKeypoints [0; 2; 4]); (1%nat, FSkip); (2%nat, FKeypoints [1; 2; 3])].
 Proof. vm_compute. reflexivity. Qed.
+
+(* ==== added after the coverage review (proofs in Proofs/KeypointsMore.v) ==== *)
+From TFL Require Import Proofs.KeypointsMore.
+
+(* "returns without error ... all weight vectors": EXACTLY when the model raises, for weights of
+   any sign and any data.  ck_raises: an invalid mode; weights with an invalid reduction; 'uniform'
+   on no data at all; or 'quantiles' with weights, 2 < k <= #distinct values and the reduced weights
+   of the distinct values summing to zero (all weights zero, or negative weights cancelling: the
+   code then indexes with int(nan); open finding D67).  C18_no_error is the special case where
+   weights_ok excludes the last disjunct. *)
+Theorem C18_error_iff : forall rnd strict vs k mode cmin cmax dv ws red,
+  compute_keypoints rnd strict vs k mode cmin cmax dv ws red = None <->
+  (let gs := ck_groups vs ws cmin cmax dv in
+   mode = MOther \/ (ws <> None /\ red = ROther) \/ (mode = Uniform /\ gs = []) \/
+   (mode = Quantiles /\ ws <> None /\ (2 < k)%nat /\ (k <= length gs)%nat /\ qsum (map (reduce red) gs) == 0)).
+Proof. exact ck_error_iff. Qed.
+Print Assumptions C18_error_iff.
+
+(* witnesses: zero weights raise for k = 3 but not for k = 2; cancelling negative weights raise *)
+Theorem C18_zero_weight_sum_refuted :
+  compute_keypoints rnd_he false [1; 2; 3; 4; 5; 6] 3 Quantiles None None None (Some [0; 0; 0; 0; 0; 0]) RMean = None /\
+  compute_keypoints rnd_he false [1; 2; 3; 4; 5; 6] 2 Quantiles None None None (Some [0; 0; 0; 0; 0; 0]) RMean = Some [1; 6] /\
+  compute_keypoints rnd_he false [1; 2; 3; 2] 3 Quantiles None None None (Some [1; -3; 0; 1]) RMean = None.
+Proof. exact zero_weights_raise. Qed.
+Print Assumptions C18_zero_weight_sum_refuted.
+
+(* Weights of any sign (np.interp's xp is then not monotone and NumPy's search is not the model's
+   scan): whatever in-range interpolated indices [raws] np.interp returns, the rest of
+   _weighted_quantile (rint, pinning of the 0 and 1 quantiles, repeated-index repair, sort, take)
+   returns exactly k strictly increasing data values from the smallest to the largest, which
+   PWLCalibration accepts.  weighted_idx = idx_of_raws on the model's own interpolation. *)
+Theorem C18_valid_for_any_interp_indices : forall rnd sv k raws,
+  nearest rnd -> increasing sv -> (2 <= k)%nat -> (k <= length sv)%nat -> length raws = k ->
+  (forall x, In x raws -> 0 <= x /\ x <= nq (length sv - 1)) ->
+  let kps := take sv (idx_of_raws rnd (length sv) k raws) in
+  increasing kps /\ length kps = k /\ pwl_keypoints_ok kps = true /\
+  hd 0 kps == hd 0 sv /\ last kps 0 == last sv 0 /\ (forall x, In x kps -> In x sv).
+Proof. exact any_indices_valid. Qed.
+Print Assumptions C18_valid_for_any_interp_indices.
+
+(* set_feature_keypoints over the whole dict (distinct keys): every entry whose config exists (or
+   with add_missing_feature_configs) ends up in the config of that name; configs of names that are
+   not keys are untouched; without add_missing no config is added. *)
+Theorem C18_set_feature_keypoints_dict : forall add fk fcs, NoDup (map fst fk) ->
+  (forall name kps, In (name, kps) fk -> has_fc fcs name = true \/ add = true ->
+     fc_spec (fc_by_name (set_feature_keypoints add fcs fk) name) = KGiven kps) /\
+  (forall name, ~ In name (map fst fk) -> fc_by_name (set_feature_keypoints add fcs fk) name = fc_by_name fcs name).
+Proof. exact set_feature_keypoints_spec. Qed.
+Print Assumptions C18_set_feature_keypoints_dict.
+
+Theorem C18_set_feature_keypoints_no_add : forall fk fcs,
+  length (set_feature_keypoints false fcs fk) = length fcs.
+Proof. exact set_feature_keypoints_length. Qed.
+Print Assumptions C18_set_feature_keypoints_no_add.
+
+(* compute_feature_keypoints then set_feature_keypoints(add_missing=True): the config of every
+   numeric feature with a mode string carries compute_keypoints of that feature's data with the
+   fields of the original (or default) config, so every theorem above applies to what the configs
+   are filled with. *)
+Theorem C18_feature_compute_then_set : forall rnd strict fcs features ws red name m,
+  NoDup (map fst features) -> In name (map fst features) ->
+  let fc := fc_by_name fcs name in
+  fc_num_buckets fc = 0%nat -> fc_spec fc = KMode m ->
+  let res := compute_feature_keypoints rnd strict fcs features ws red in
+  (forall n r, In (n, r) res -> r <> FError) ->
+  exists vs kps, In (name, vs) features /\
+    compute_keypoints rnd strict vs (fc_num_keypoints fc) m (fc_clip_min fc) (fc_clip_max fc) (fc_default fc) ws red = Some kps /\
+    fc_spec (fc_by_name (set_feature_keypoints true fcs (fk_dict res)) name) = KGiven kps.
+Proof. exact compute_then_set. Qed.
+Print Assumptions C18_feature_compute_then_set.
+
+(* set_label_keypoints stores the keypoints (other fields unchanged); a later
+   compute_label_keypoints returns them as given. *)
+Theorem C18_set_label_keypoints : forall rnd strict lc kps labels logits ws red,
+  let lc' := set_label_keypoints lc kps in
+  lc_spec lc' = KGiven kps /\ lc_num_keypoints lc' = lc_num_keypoints lc /\
+  lc_output_min lc' = lc_output_min lc /\ lc_output_max lc' = lc_output_max lc /\
+  compute_label_keypoints rnd strict lc' labels logits ws red = FKeypoints kps.
+Proof. exact set_label_keypoints_spec. Qed.
+Print Assumptions C18_set_label_keypoints.
+
+Theorem C18_label_compute_then_set : forall rnd strict lc labels ws red m kps,
+  lc_spec lc = KMode m ->
+  compute_label_keypoints rnd strict lc labels false ws red = FKeypoints kps ->
+  compute_keypoints rnd strict (label_values labels) (lc_num_keypoints lc) m (lc_output_min lc) (lc_output_max lc)
+                    None (label_weights labels ws) red = Some kps /\
+  lc_spec (set_label_keypoints lc kps) = KGiven kps.
+Proof. exact label_compute_then_set. Qed.
+Print Assumptions C18_label_compute_then_set.
+
+(* ---- satisfiable hypotheses for the added theorems ---- *)
+(* an out-of-order (non-monotone) in-range index vector, as negative weights can produce *)
+Example C18_ex_any_indices :
+  let sv := [1; 2; 4; 7; 8] in let raws := [3; (1#2); 4] in
+  increasing sv /\ length raws = 3%nat /\ (forall x, In x raws -> 0 <= x /\ x <= nq (length sv - 1)) /\
+  take sv (idx_of_raws rnd_he (length sv) 3 raws) = [1; 2; 8].
+Proof.
+  cbv zeta. split; [cbn; repeat split; lra|]. split; [reflexivity|]. split; [|vm_compute; reflexivity].
+  intros x Hx. destruct Hx as [<-|[<-|[<-|[]]]]; split; unfold Qle; cbn; lia.
+Qed.
+
+(* the dict helper: two keys, one with a config, one added; a third config untouched *)
+Example C18_ex_set_dict :
+  let fcs := [mkfc 0 0 (KMode Quantiles) 4 None None None; mkfc 7 3 (KMode Uniform) 5 None None None] in
+  let fk := [(0%nat, [1; 2; 3]); (2%nat, [0; 5])] in
+  NoDup (map fst fk) /\
+  map (fun fc => (fc_name fc, fc_spec fc)) (set_feature_keypoints true fcs fk) =
+    [(0%nat, KGiven [1; 2; 3]); (7%nat, KMode Uniform); (2%nat, KGiven [0; 5])] /\
+  map (fun fc => (fc_name fc, fc_spec fc)) (set_feature_keypoints false fcs fk) =
+    [(0%nat, KGiven [1; 2; 3]); (7%nat, KMode Uniform)].
+Proof.
+  cbv zeta. split; [|split; vm_compute; reflexivity].
+  cbn. constructor; [cbn; intuition discriminate|]. constructor; [cbn; tauto|constructor].
+Qed.
+
+(* compute then set on the C18_ex_feature call *)
+Example C18_ex_compute_then_set :
+  let fcs := [mkfc 0 0 (KMode Uniform) 3 (Some 0) None None; mkfc 1 3 (KMode Quantiles) 5 None None None] in
+  let feats := [(0%nat, [1; 2; 4]); (1%nat, [0; 1; 2]); (2%nat, [3; 1; 2])] in
+  let res := compute_feature_keypoints rnd_he false fcs feats None RMean in
+  NoDup (map fst feats) /\ (forall n r, In (n, r) res -> r <> FError) /\
+  map (fun fc => (fc_name fc, fc_spec fc)) (set_feature_keypoints true fcs (fk_dict res)) =
+    [(0%nat, KGiven [0; 2; 4]); (1%nat, KMode Quantiles); (2%nat, KGiven [1; 2; 3])].
+Proof.
+  cbv zeta. split.
+  - cbn. constructor; [cbn; intuition discriminate|]. constructor; [cbn; intuition discriminate|].
+    constructor; [cbn; tauto|constructor].
+  - split; [|vm_compute; reflexivity].
+    intros n r Hin. vm_compute in Hin. destruct Hin as [H|[H|[H|[]]]]; inversion H; discriminate.
+Qed.
+
+(* a label helper call: numeric labels, 'quantiles', output_min as clip bound; then stored *)
+Example C18_ex_label :
+  let lc := mklc (KMode Quantiles) 3 (Some 0) None in
+  compute_label_keypoints rnd_he false lc (LNum [1; 3; 2; 3; 5]) false None RMean = FKeypoints [0; 2; 5] /\
+  compute_label_keypoints rnd_he false lc (LStr [4; 2; 4; 9]%nat) false (Some [1; 1; 1; 1]) RSum = FKeypoints [0; 1; 2] /\
+  compute_label_keypoints rnd_he false lc (LNum [1; 3]) true None RMean = FKeypoints [-2#1; 0; 2] /\
+  lc_spec (set_label_keypoints lc [0; 2; 5]) = KGiven [0; 2; 5].
+Proof. cbv zeta. repeat split; vm_compute; reflexivity. Qed.
